@@ -735,3 +735,12 @@ M("C20-fptr-lower-bound-dropped", "C20", "src/interrogatedb/interrogateDatabase.
 M("C20-benign-fptr-bounds-swapped", "C20", "src/interrogatedb/interrogateDatabase.cxx",
   "    if (module_index >= 0 && module_index < def->num_fptrs) {", "    if (module_index < def->num_fptrs && 0 <= module_index) {",
   benign=True)
+
+M("C15-raw-delimiter-rfind", "C15", "src/cppparser/cppPreprocessor.cxx",
+  "      if (str.size() >= delimiter.size() &&\n          str.compare(str.size() - delimiter.size(), delimiter.size(), delimiter) == 0) {",
+  "      if (str.rfind(delimiter) == str.size() - delimiter.size()) {",
+  expect="R15.2|CPPPreprocessor::scan_raw")
+M("C15-benign-raw-delimiter-nested-if", "C15", "src/cppparser/cppPreprocessor.cxx",
+  "      if (str.size() >= delimiter.size() &&\n          str.compare(str.size() - delimiter.size(), delimiter.size(), delimiter) == 0) {\n        str.resize(str.size() - delimiter.size());\n        break;\n      }",
+  "      if (str.size() >= delimiter.size()) {\n        if (str.compare(str.size() - delimiter.size(), delimiter.size(), delimiter) == 0) {\n          str.resize(str.size() - delimiter.size());\n          break;\n        }\n      }",
+  benign=True)
